@@ -19,6 +19,7 @@ import (
 	"strings"
 	"time"
 
+	. "gethverif/harness/hxlib"
 	"github.com/ethereum/go-ethereum/common"
 	"github.com/ethereum/go-ethereum/consensus"
 	"github.com/ethereum/go-ethereum/consensus/ethash"
@@ -29,7 +30,6 @@ import (
 	"github.com/ethereum/go-ethereum/ethdb"
 	"github.com/ethereum/go-ethereum/params"
 	"github.com/ethereum/go-ethereum/triedb"
-	. "gethverif/harness/hxlib"
 )
 
 const (
@@ -191,8 +191,8 @@ type world struct {
 	needIdx bool
 	// oracle state
 	view         map[int64]int // subscriber's multiset of live logs
-	staleAllowed bool // a SetHead / restart left head block != head header at some point
-	setHeadSeen  bool
+	staleAllowed bool          // a SetHead / restart left head block != head header at some point
+	shStale      map[int]int   // tx -> height of a lookup entry left behind by SetHead
 }
 
 func (w *world) buildBlocks() {
@@ -429,47 +429,88 @@ func (w *world) canonChain() ([]int, string) {
 	return out, ""
 }
 
-// the direct property oracle, evaluated on the database after one operation
-func (w *world) oracle(e evs, excuse string, res *Result) string {
-	var fails []string
+// what the oracle needs to know about the operation just executed
+type opInfo struct {
+	idx         int
+	kind        int          // 0 InsertChain, 1 InsertBlockWithoutSetHead, 2 SetCanonical, 3 SetHead, 4 restart
+	before      []int        // canonical chain (block ids by height) before the operation
+	knownBefore map[int]bool // blocks named by the operation that were stored with state before it
+}
+
+func logBlock(x int64) int { return int(x / (4096 * 64)) }
+
+// The direct property oracle, evaluated on the database after one operation.  It returns
+// the failures that are NOT one of the recorded deviations first ("real"), then the
+// recorded ones, each with its stable id and only when its mechanism has been verified
+// on this very operation:
+//
+//	C38-stale-canon-above-head-after-sethead  canonical entries above the head header that are
+//	    not descendants of it, after an earlier SetHead/restart left head block != head header
+//	C38-setcanonical-reemits-logs   logs of a block that was canonical before the operation and
+//	    still is are emitted again (SetCanonical / re-execution of a canonical block)
+//	C38-known-reimport-silent       blocks stored with state are re-adopted by InsertChain
+//	    (writeKnownBlock) and their logs are not announced
+//	C38-sethead-no-removed-logs     SetHead drops canonical blocks without RemovedLogsEvent
+//	C38-sethead-stale-lookups       a lookup entry of a block dropped by SetHead is still there
+func (w *world) oracle(e evs, op opInfo, res *Result) (real, known []string) {
+	pre := fmt.Sprintf("op %d: ", op.idx)
+	addReal := func(f string, a ...interface{}) { real = append(real, pre+fmt.Sprintf(f, a...)) }
+	addKnown := func(id, f string, a ...interface{}) {
+		known = append(known, id+": "+pre+fmt.Sprintf(f, a...))
+		res.Tags = append(res.Tags, id)
+	}
 	chain, msg := w.canonChain()
 	if msg != "" {
-		return msg
+		addReal("%s", msg)
+		return
 	}
 	headNum := len(chain) - 1
+	cb, ch, csn := w.bc.CurrentBlock(), w.bc.CurrentHeader(), w.bc.CurrentSnapBlock()
 	// nothing canonical above the head header
-	stale := false
+	stale, unlinked := 0, 0
+	prev := ch.Hash()
 	for n := headNum + 1; n <= w.cs.maxn+2; n++ {
-		if rawdb.ReadCanonicalHash(w.db, uint64(n)) != (common.Hash{}) {
-			stale = true
+		h := rawdb.ReadCanonicalHash(w.db, uint64(n))
+		if h == (common.Hash{}) {
+			prev = common.Hash{}
+			continue
+		}
+		stale++
+		if hd := rawdb.ReadHeader(w.db, h, uint64(n)); hd == nil || hd.ParentHash != prev {
+			unlinked++
+		}
+		prev = h
+	}
+	if stale > 0 {
+		switch {
+		case !w.staleAllowed:
+			addReal("canonical entry above the head header")
+		case unlinked > 0:
+			addKnown("C38-stale-canon-above-head-after-sethead", "%d canonical entries above head header #%d, %d of them not linked to it", stale, headNum, unlinked)
+		default:
+			// leftovers of the same chain above a head header that writeHeadBlock pulled down
+			res.Tags = append(res.Tags, "linked-canon-above-head-header")
 		}
 	}
-	cb, ch, csn := w.bc.CurrentBlock(), w.bc.CurrentHeader(), w.bc.CurrentSnapBlock()
 	if cb.Hash() != ch.Hash() {
 		w.staleAllowed = true
 		res.Tags = append(res.Tags, "head-block-below-header")
 	}
-	if stale {
-		if w.staleAllowed {
-			res.Tags = append(res.Tags, "stale-canon-above-head")
-		} else {
-			fails = append(fails, "canonical entry above the head header")
-		}
-	}
 	// markers agree with the database, head block canonical and stateful
 	if rawdb.ReadHeadBlockHash(w.db) != cb.Hash() || rawdb.ReadHeadHeaderHash(w.db) != ch.Hash() || rawdb.ReadHeadFastBlockHash(w.db) != csn.Hash() {
-		fails = append(fails, "in-memory head markers differ from the stored ones")
+		addReal("in-memory head markers differ from the stored ones")
 	}
 	bn := int(cb.Number.Uint64())
 	if bn > headNum || w.blocks[chain[bn]].Hash() != cb.Hash() {
-		fails = append(fails, "head block is not on the canonical chain")
+		addReal("head block is not on the canonical chain")
+		return
 	}
 	sn := int(csn.Number.Uint64())
 	if sn > headNum || w.blocks[chain[sn]].Hash() != csn.Hash() {
-		fails = append(fails, "head snap block is not on the canonical chain")
+		addReal("head snap block is not on the canonical chain")
 	}
 	if !w.bc.HasState(cb.Root) {
-		fails = append(fails, "head block state is not available")
+		addReal("head block state is not available")
 	}
 	// tx lookups: a tx resolves iff it is in a canonical block, and to that block
 	where := map[int]int{}
@@ -484,40 +525,59 @@ func (w *world) oracle(e evs, excuse string, res *Result) string {
 		n, isCanon := where[t]
 		if tx != nil {
 			if !isCanon || int(bnum) != n || bh != w.blocks[chain[n]].Hash() || tx.Hash() != h {
-				if stale && w.staleAllowed && int(bnum) > headNum {
-					res.Tags = append(res.Tags, "tx-resolves-to-stale-canonical-block")
+				if unlinked > 0 && w.staleAllowed && int(bnum) > headNum {
+					addKnown("C38-stale-canon-above-head-after-sethead", "tx %d resolves to the stale canonical block #%d above head #%d", t, bnum, headNum)
 				} else {
-					fails = append(fails, fmt.Sprintf("tx %d resolves to non-canonical block #%d", t, bnum))
+					addReal("tx %d resolves to non-canonical block #%d", t, bnum)
 				}
 			}
 		} else if isCanon {
-			fails = append(fails, fmt.Sprintf("canonical tx %d (block #%d) does not resolve", t, n))
+			addReal("canonical tx %d (block #%d) does not resolve", t, n)
 		}
-		// database-level: without SetHead in the history an entry only ever points to its canonical block
-		if e := rawdb.ReadTxLookupEntry(w.db, h); e != nil && (!isCanon || int(*e) != n) {
-			if w.setHeadSeen {
-				res.Tags = append(res.Tags, "stale-lookup-after-sethead")
-			} else {
-				fails = append(fails, fmt.Sprintf("lookup entry of tx %d points to #%d, which does not hold it canonically", t, *e))
+		// database level: an entry points to the canonical block holding the tx
+		ent := rawdb.ReadTxLookupEntry(w.db, h)
+		if ent == nil || (isCanon && int(*ent) == n) {
+			delete(w.shStale, t)
+			continue
+		}
+		fresh := false
+		if op.kind == 3 && int(*ent) < len(op.before) && int(*ent) > headNum {
+			// the entry named a canonical block that this SetHead has just removed
+			for _, bt := range w.cs.byID[op.before[*ent]].txs {
+				if bt == t && w.shStale[t] != int(*ent) {
+					w.shStale[t], fresh = int(*ent), true
+				}
 			}
+		}
+		switch at, ok := w.shStale[t]; {
+		case ok && at == int(*ent):
+			if fresh { // reported once, at the SetHead that leaves it behind
+				addKnown("C38-sethead-stale-lookups", "lookup entry of tx %d still points to #%d, removed by SetHead", t, *ent)
+			}
+		case unlinked > 0 && w.staleAllowed && int(*ent) > headNum:
+			addKnown("C38-stale-canon-above-head-after-sethead", "lookup entry of tx %d points to the stale canonical block #%d above head #%d", t, *ent, headNum)
+		default:
+			addReal("lookup entry of tx %d points to #%d, which does not hold it canonically", t, *ent)
 		}
 	}
 	// logs: a subscriber applying removed/added events holds exactly the canonical logs
-	okView := true
+	var badRemove, dups []int64
 	for _, l := range e.removed {
 		for _, x := range l {
 			if w.view[x] <= 0 {
-				okView = false
+				badRemove = append(badRemove, x)
+			} else {
+				w.view[x]--
 			}
-			w.view[x]--
 		}
 	}
 	for _, l := range e.logs {
 		for _, x := range l {
 			if w.view[x] > 0 {
-				okView = false
+				dups = append(dups, x)
+			} else {
+				w.view[x]++
 			}
-			w.view[x]++
 		}
 	}
 	want := map[int64]int{}
@@ -526,52 +586,78 @@ func (w *world) oracle(e evs, excuse string, res *Result) string {
 			want[x]++
 		}
 	}
+	var missing, extra []int64
+	for k := range want {
+		if w.view[k] == 0 {
+			missing = append(missing, k)
+		}
+	}
 	for k, v := range w.view {
-		if v == 0 {
-			delete(w.view, k)
+		if v > 0 && want[k] == 0 {
+			extra = append(extra, k)
 		}
 	}
-	same := len(want) == len(w.view)
-	for k, v := range want {
-		if w.view[k] != v {
-			same = false
+	sort.Slice(missing, func(i, j int) bool { return missing[i] < missing[j] })
+	sort.Slice(extra, func(i, j int) bool { return extra[i] < extra[j] })
+	wasCanon := func(b int) bool {
+		n := w.cs.byID[b].number
+		return n < len(op.before) && op.before[n] == b
+	}
+	isCanonNow := func(b int) bool {
+		n := w.cs.byID[b].number
+		return n < len(chain) && chain[n] == b
+	}
+	if len(badRemove) > 0 {
+		addReal("RemovedLogsEvent for %d logs the subscriber does not hold", len(badRemove))
+	}
+	if len(dups) > 0 {
+		ok := true
+		for _, x := range dups {
+			if b := logBlock(x); !wasCanon(b) || !isCanonNow(b) {
+				ok = false
+			}
+		}
+		if ok && op.kind != 3 && op.kind != 4 {
+			addKnown("C38-setcanonical-reemits-logs", "%d logs of block %d, canonical before and after, emitted again", len(dups), logBlock(dups[0]))
+		} else {
+			addReal("%d logs emitted twice without removal", len(dups))
 		}
 	}
-	if !okView || !same {
-		switch {
-		case excuse != "":
-			// a path on which the code, as written, does not emit the events of the switch
-			// (reported as candidate findings; the model reproduces the same events)
-			res.Tags = append(res.Tags, excuse)
-		default:
-			fails = append(fails, "removed/added log events do not describe the canonical switch")
+	if len(missing) > 0 {
+		ok := true
+		for _, x := range missing {
+			if !op.knownBefore[logBlock(x)] {
+				ok = false
+			}
 		}
-		// resynchronise the subscriber
-		w.view = want
+		if ok && (op.kind == 0 || op.kind == 1) {
+			addKnown("C38-known-reimport-silent", "%d logs of re-adopted known block %d not announced", len(missing), logBlock(missing[0]))
+		} else {
+			addReal("%d logs of the new canonical chain were never announced", len(missing))
+		}
 	}
-	return strings.Join(fails, "; ")
-}
-
-// paths of insertChain on which the code, as written, does not emit log events that
-// describe the switch: known blocks are adopted by writeKnownBlock without any event;
-// a block that is already canonical (re-executed because its state was pruned, directly
-// or through insertSideChain/recoverAncestors) gets its logs emitted a second time.
-func (w *world) insertExcuse(b *types.Block, cur string) string {
-	switch {
-	case w.bc.HasBlockAndState(b.Hash(), b.NumberU64()):
-		return "known-block-reimport-without-log-events"
-	case rawdb.ReadCanonicalHash(w.db, b.NumberU64()) == b.Hash():
-		return "canonical-block-reimport-reemits-logs"
+	if len(extra) > 0 {
+		ok := true
+		for _, x := range extra {
+			b := logBlock(x)
+			if !wasCanon(b) || w.cs.byID[b].number <= bn {
+				ok = false
+			}
+		}
+		if ok && op.kind == 3 {
+			addKnown("C38-sethead-no-removed-logs", "%d logs of blocks above the new head #%d not removed", len(extra), bn)
+		} else {
+			addReal("%d logs of blocks no longer canonical were not removed", len(extra))
+		}
 	}
-	if p := w.bc.GetHeader(b.ParentHash(), b.NumberU64()-1); p != nil && !w.bc.HasState(p.Root) {
-		return "pruned-ancestor-reimport-reemits-logs"
-	}
-	return cur
+	// resynchronise the subscriber
+	w.view = want
+	return
 }
 
 func run(c Sx) Result {
 	cs := parseCase(c)
-	w := &world{cs: cs, db: rawdb.NewMemoryDatabase(), gspec: genesisSpec(), view: map[int64]int{}}
+	w := &world{cs: cs, db: rawdb.NewMemoryDatabase(), gspec: genesisSpec(), view: map[int64]int{}, shStale: map[int]int{}}
 	// The tx indexer runs (TxLookupLimit = 0) over a database marked as fully indexed
 	// (tail 0): its background pass then has nothing to write, so every lookup entry
 	// observed is one maintained synchronously by writeHeadBlock / reorg.  (With the tail
@@ -583,7 +669,7 @@ func run(c Sx) Result {
 	defer func() { w.bc.Stop() }()
 	res := Result{}
 	obs := SL{}
-	var oracle []string
+	var oracleReal, oracleKnown []string
 	reorgs, lookups := 0, 0
 	for oi, o := range cs.ops {
 		f := AsList(o)
@@ -592,55 +678,53 @@ func run(c Sx) Result {
 		}
 		before, _ := w.canonChain()
 		var class int64
-		excuse := ""
 		kind := AsInt(f[0])
+		info := opInfo{idx: oi, kind: kind, before: before, knownBefore: map[int]bool{}}
+		noteKnown := func(id int, b *types.Block) {
+			if w.bc.HasBlockAndState(b.Hash(), b.NumberU64()) {
+				info.knownBefore[id] = true
+			}
+		}
 		switch kind {
 		case 0:
 			var blocks types.Blocks
 			okIDs := true
 			for _, x := range AsList(f[1]) {
-				b := w.blocks[int(AsInt(x))]
+				b := w.blocks[AsInt(x)]
 				if b == nil {
 					okIDs = false
 					break
 				}
 				blocks = append(blocks, b)
+				noteKnown(AsInt(x), b)
 			}
 			if !okIDs {
 				class = 8
 				break
 			}
-			for _, b := range blocks {
-				excuse = w.insertExcuse(b, excuse)
-			}
 			_, err := w.bc.InsertChain(blocks)
 			class = errClass(err)
 			res.Tags = append(res.Tags, fmt.Sprintf("insert-len%d", min(len(blocks), 4)))
 		case 1:
-			b := w.blocks[int(AsInt(f[1]))]
+			b := w.blocks[AsInt(f[1])]
 			if b == nil {
 				class = 8
 				break
 			}
-			excuse = w.insertExcuse(b, excuse)
+			noteKnown(AsInt(f[1]), b)
 			_, err := w.bc.InsertBlockWithoutSetHead(nil, b, false)
 			class = errClass(err)
 			res.Tags = append(res.Tags, "insert-nohead")
 		case 2:
-			b := w.blocks[int(AsInt(f[1]))]
+			b := w.blocks[AsInt(f[1])]
 			if b == nil || w.bc.GetBlockByHash(b.Hash()) == nil {
 				class = 8
 				break
-			}
-			if rawdb.ReadCanonicalHash(w.db, b.NumberU64()) == b.Hash() {
-				excuse = "set-canonical-to-canonical-block-reemits-logs"
 			}
 			_, err := w.bc.SetCanonical(w.bc.GetBlockByHash(b.Hash()))
 			class = errClass(err)
 			res.Tags = append(res.Tags, "set-canonical")
 		case 3:
-			w.setHeadSeen = true
-			excuse = "set-head-emits-no-removed-logs"
 			err := w.bc.SetHead(AsU64(f[1]))
 			class = errClass(err)
 			res.Tags = append(res.Tags, "set-head")
@@ -654,7 +738,7 @@ func run(c Sx) Result {
 		}
 		e := w.drain()
 		if msg := w.waitIndexer(); msg != "" {
-			oracle = append(oracle, fmt.Sprintf("op %d: %s", oi, msg))
+			oracleReal = append(oracleReal, fmt.Sprintf("op %d: %s", oi, msg))
 		}
 		obs = append(obs, w.observe(class, e))
 		if class != 0 {
@@ -663,9 +747,9 @@ func run(c Sx) Result {
 		if len(e.removed) > 0 {
 			res.Tags = append(res.Tags, "removed-logs")
 		}
-		if msg := w.oracle(e, excuse, &res); msg != "" {
-			oracle = append(oracle, fmt.Sprintf("op %d: %s", oi, msg))
-		}
+		r, k := w.oracle(e, info, &res)
+		oracleReal = append(oracleReal, r...)
+		oracleKnown = append(oracleKnown, k...)
 		after, _ := w.canonChain()
 		for n := 1; n < len(before) && n < len(after); n++ {
 			if before[n] != after[n] {
@@ -683,7 +767,19 @@ func run(c Sx) Result {
 		res.Tags = append(res.Tags, "reorg")
 	}
 	res.Obs = obs
-	res.Oracle = strings.Join(oracle, " | ")
+	// failures that are not recorded deviations come first, so that a known-finding
+	// prefix can never hide one of them
+	// (and the rarer recorded deviations before the frequent ones, so each gets listed)
+	prio := func(m string) int {
+		for i, id := range []string{"C38-stale-canon", "C38-setcanonical", "C38-known-reimport", "C38-sethead-no-removed", "C38-sethead-stale"} {
+			if strings.HasPrefix(m, id) {
+				return i
+			}
+		}
+		return 9
+	}
+	sort.SliceStable(oracleKnown, func(i, j int) bool { return prio(oracleKnown[i]) < prio(oracleKnown[j]) })
+	res.Oracle = strings.Join(append(oracleReal, oracleKnown...), " | ")
 	res.NonTrivial = reorgs > 0 && lookups > 0
 	res.Tags = dedup(res.Tags)
 	return res
